@@ -128,6 +128,7 @@ def table : List Entry := [
   ⟨k% "AuxLatitude.ConvertSeries", 36, ["111111111111111111111111111111111111"], false, []⟩,
   ⟨k% "AuxLatitude.FromAuxiliary", 12, ["111111===000", "111111===000"], false, []⟩,
   ⟨k% "AuxLatitude.ToAuxiliary", 12, ["111111===111", "111111===111"], false, []⟩,
+  ⟨k% "AuxLatitude.ToAuxiliaryPole", 12, ["111111===111", "111111===111"], false, []⟩,
   ⟨k% "AzimuthalEquidistant.Forward", 4, ["1111", "1111", "1111", "1111"], false, []⟩,
   ⟨k% "AzimuthalEquidistant.Reverse", 4, ["1111", "=1==", "1111", "1111"], false, []⟩,
   ⟨k% "CassiniSoldner.Forward", 4, ["=1==", "1111", "1111", "1111"], false, []⟩,
@@ -328,10 +329,10 @@ def table : List Entry := [
   ⟨k% "GravityModel.U", 4, ["1111", "1111", "1111"], false, []⟩,
   ⟨k% "GravityModel.V", 4, ["1111", "1111", "1111"], false, []⟩,
   ⟨k% "GravityModel.W", 4, ["1111", "1111", "1111"], false, []⟩,
-  ⟨k% "Intersect.All", 3, ["011", "011", "011", "011", "011", "011", "011", "011", "011"], false, []⟩,
-  ⟨k% "Intersect.AllC", 3, ["011", "011", "011", "011", "011", "011", "011", "011", "011"], false, []⟩,
-  ⟨k% "Intersect.AllLines", 3, ["011", "011", "011", "011", "011", "011", "011", "011", "011"], false, []⟩,
-  ⟨k% "Intersect.AllLinesC", 3, ["011", "011", "011", "011", "011", "011", "011", "011", "011"], false, []⟩,
+  ⟨k% "Intersect.All", 3, ["011", "011", "011", "011", "011", "011", "011", "011", "011"], true, []⟩,
+  ⟨k% "Intersect.AllC", 3, ["011", "011", "011", "011", "011", "011", "011", "011", "011"], true, []⟩,
+  ⟨k% "Intersect.AllLines", 3, ["011", "011", "011", "011", "011", "011", "011", "011", "011"], true, []⟩,
+  ⟨k% "Intersect.AllLinesC", 3, ["011", "011", "011", "011", "011", "011", "011", "011", "011"], true, []⟩,
   ⟨k% "Intersect.Closest", 2, ["11", "11", "11", "11", "11", "11"], false, []⟩,
   ⟨k% "Intersect.ClosestLines", 2, ["11", "11", "11", "11", "11", "11"], false, []⟩,
   ⟨k% "Intersect.ClosestP0", 3, ["110", "110", "110", "110", "110", "110", "110", "110"], false, []⟩,
@@ -615,11 +616,19 @@ def intersectReject (a f : F64) : Bool := !abOK a f
 def intersectAccept (a f : F64) : Bool :=
   abOK a f && inRange (F64.ofDecimal 1 3) a (F64.ofInt 1000000000000) && inRange (F64.neg (F64.ofDecimal 25 2)) f (F64.ofDecimal 2 1)
 
+/-- `Intersect::All(…, maxdist, …)` validates `maxdist` since fix fb4697b (F78): the number of tiles `ceil((maxdist + δ)/d3)²` must fit into an
+`int`, i.e. `maxdist + δ < 46340·d3` with `d3 ≈ π b ≈ 2·10⁷ m` on WGS84 (limit ≈ 9.27·10¹¹ m).  Certainly rejected: `+inf` and everything from
+`10¹³` m on; certainly accepted: a NaN (which `fmax(0, maxdist)` turns into 0 — it lists at most the closest intersection), every negative value
+(likewise 0) and everything up to `10⁸` m.  (Between `2·10⁸` and the limit the call is legal but its cost grows with `maxdist²`: not run.) -/
+def intersectAllReject (maxdist : F64) : Bool := F64.ge maxdist (F64.ofInt 10000000000000)
+def intersectAllAccept (maxdist : F64) : Bool := maxdist.isNaN || F64.le maxdist (F64.ofInt 100000000)
+
 /-- `(mustReject, mustAccept)` for the constructors without an exact predicate -/
 def ctorBounds (cls : String) (p : List F64) : Option (Bool × Bool) :=
   match cls, p with
   | "NormalGravityJ2", [a, gm, om, j2] => some (normalGravityJ2Reject a gm om j2, normalGravityJ2Accept a gm om j2)
   | "Intersect", [a, f] => some (intersectReject a f, intersectAccept a f)
+  | "Intersect.All", [maxdist] => some (intersectAllReject maxdist, intersectAllAccept maxdist)
   | _, _ => none
 
 /-- every class name the dispatchers know, with its number of parameters (the list the API-coverage obligation refers to; that it
@@ -629,7 +638,7 @@ def ctorTable : List (Key × Nat) :=
    (k% "AuxLatitudeAxes", 2), (k% "Geocentric", 2), (k% "TransverseMercator", 3), (k% "PolarStereographic", 3), (k% "TransverseMercatorX", 3),
    (k% "TransverseMercatorExact", 3), (k% "PolarStereographic.SetScale", 2), (k% "LambertConformalConic.SetScale", 2), (k% "AlbersEqualArea.SetScale", 2),
    (k% "LambertConformalConic1", 4), (k% "LambertConformalConic2", 5), (k% "LambertConformalConic4", 7), (k% "AlbersEqualArea1", 4), (k% "AlbersEqualArea2", 5),
-   (k% "AlbersEqualArea4", 7), (k% "NormalGravity", 4), (k% "NormalGravityJ2", 4), (k% "Intersect", 2), (k% "EllipticFunction2", 2), (k% "EllipticFunction4", 4),
+   (k% "AlbersEqualArea4", 7), (k% "NormalGravity", 4), (k% "NormalGravityJ2", 4), (k% "Intersect", 2), (k% "Intersect.All", 1), (k% "EllipticFunction2", 2), (k% "EllipticFunction4", 4),
    (k% "GeoCoordsLatLon", 2), (k% "GeoCoordsUTM32N", 2), (k% "GeoCoordsUTM32S", 2), (k% "GeoCoordsUPSN", 2), (k% "GeoCoordsUPSS", 2)] ++ totalCtors
 
 /-- does some dispatcher know the class with that many parameters? -/
@@ -656,12 +665,17 @@ structure ShSet where
 
 def ShSet.sizesOK (s : ShSet) : Bool :=
   decide (shIndex s.N s.nmx s.mmx < s.csize) && decide (shIndex s.N s.nmx s.mmx < s.ssize + (s.N + 1))
-/-- the general constructor, as documented (`N ≥ nmx ≥ mmx ≥ −1`) with the coded refinement that a sum with `mmx = −1` is empty and then
-`nmx = −1` is required as well.  (The code omits `N ≥ −1` in the empty case: part of finding G13-3.) -/
+/-- largest degree whose index arithmetic `m * N − m(m − 1)/2 + n` stays inside a 32-bit `int` (`46339² + 46339 < 2³¹`); larger degrees are
+refused by the constructors ("Degree too large", fix 3a5948e = F79; `readcoeffs` has the same bound) -/
+def shMaxDegree : Int := 46339
+
+/-- the general constructor: `N ≥ nmx ≥ mmx ≥ −1` as documented, with the coded refinement that a sum with `mmx = −1` is empty and then
+`nmx = −1` is required as well, and the degree bound -/
 def ShSet.generalOK (s : ShSet) : Bool :=
-  (decide (s.N ≥ s.nmx ∧ s.nmx ≥ s.mmx ∧ s.mmx ≥ 0) || decide (s.N ≥ -1 ∧ s.nmx = -1 ∧ s.mmx = -1)) && s.sizesOK
-/-- the "full" constructor `(C, S, N)`: `nmx = mmx = N ≥ −1` -/
-def ShSet.fullOK (s : ShSet) : Bool := decide (s.N ≥ -1) && ({ s with nmx := s.N, mmx := s.N } : ShSet).sizesOK
+  (decide (s.N ≥ s.nmx ∧ s.nmx ≥ s.mmx ∧ s.mmx ≥ 0) || decide (s.N ≥ -1 ∧ s.nmx = -1 ∧ s.mmx = -1)) && decide (s.N ≤ shMaxDegree) && s.sizesOK
+/-- the "full" constructor `(C, S, N)`: `nmx = mmx = N`, `−1 ≤ N ≤ 46339` -/
+def ShSet.fullOK (s : ShSet) : Bool :=
+  decide (s.N ≥ -1) && decide (s.N ≤ shMaxDegree) && ({ s with nmx := s.N, mmx := s.N } : ShSet).sizesOK
 def ShSet.ok (full : Bool) (s : ShSet) : Bool := if full then s.fullOK else s.generalOK
 
 /-- the smallest vectors the documented layout needs (`Csize`, `Ssize` of the header for `nmx = N`, `mmx = M`) -/
